@@ -69,7 +69,7 @@ func (s *stubMarshalOnly) Marshal() ([]byte, error) {
 }
 
 func runC19(cfg *config, res *monitor.Result) {
-	nvals := 4
+	nvals := 10
 	if cfg.thorough() {
 		nvals = 100
 	}
